@@ -660,6 +660,30 @@ func c17Corpus(r *fw.Rec, s corpus.Source) {
 		r.Violate(fw.Violation{Key: "corpus-distinct-count/" + s.ID, Input: text, What: fmt.Sprintf("the input writes `distinct` %d times, the printed module %d times", nx, ny), Observed: y})
 		return
 	}
+	// inline versus numbered placement: per kind, as many specialised nodes are
+	// spelled out inline (anywhere but at the head of a definition `!N = `) in the
+	// printed module as in the input; a node put around a reference, or a
+	// definition spelled out where it was referred to, changes the counts
+	{
+		ix, iy := inlineNodeKinds(text), inlineNodeKinds(y)
+		var kinds []string
+		for k := range ix {
+			kinds = append(kinds, k)
+		}
+		for k := range iy {
+			if _, ok := ix[k]; !ok {
+				kinds = append(kinds, k)
+			}
+		}
+		sort.Strings(kinds)
+		for _, k := range kinds {
+			if ix[k] != iy[k] {
+				r.Violate(fw.Violation{Key: "corpus-inline-placement/" + s.ID, Input: text, What: fmt.Sprintf("the input spells out %d nodes !%s(...) inline, the printed module %d", ix[k], k, iy[k]), Observed: y})
+				return
+			}
+		}
+		r.TallyN("references", "corpus:inline-node-kinds-conserved", len(kinds))
+	}
 	if strings.Contains(y, "!-1") {
 		r.Violate(fw.Violation{Key: "corpus-unnumbered-reference/" + s.ID, Input: text, What: "the printed module refers to `!-1`: a node without an ID is printed as a reference instead of being spelled out", Observed: y})
 		return
@@ -696,6 +720,36 @@ func c17Corpus(r *fw.Rec, s corpus.Source) {
 		r.Nontrivial(s.ID)
 	}
 	r.Sample(map[string]interface{}{"corpus": s.ID, "metadata_definitions": len(m.MetadataDefs), "references_checked": c.Refs["ref.metadata"]})
+}
+
+var (
+	reC17Quoted     = regexp.MustCompile(`"[^"]*"`)
+	reC17NodeHead   = regexp.MustCompile(`!([A-Z][A-Za-z]*)\(`)
+	reC17DefHead    = regexp.MustCompile(`^![0-9]+ = (distinct )?!([A-Z][A-Za-z]*)\(`)
+	reC17LineRemark = regexp.MustCompile(`;[^"]*$`)
+)
+
+// inlineNodeKinds counts, per kind, the specialised nodes written inline in the
+// text: every `!Kind(` except the one a definition line `!N = [distinct] !Kind(`
+// starts with. Strings and trailing comments are taken out first.
+func inlineNodeKinds(text string) map[string]int {
+	out := map[string]int{}
+	for _, line := range strings.Split(text, "\n") {
+		line = reC17Quoted.ReplaceAllString(line, `""`)
+		line = reC17LineRemark.ReplaceAllString(line, "")
+		for _, mm := range reC17NodeHead.FindAllStringSubmatch(line, -1) {
+			out[mm[1]]++
+		}
+		if mm := reC17DefHead.FindStringSubmatch(strings.TrimLeft(line, " \t")); mm != nil {
+			out[mm[2]]--
+		}
+	}
+	for k, n := range out {
+		if n == 0 {
+			delete(out, k)
+		}
+	}
+	return out
 }
 
 // c17RefConservation compares the `!N` references of the text with the edges of
